@@ -189,15 +189,17 @@ theorem c16_only_wiring_errors (d : Diagram) (H : Nat → Option Handler)
     · exact absurd hex hne
 
 /-- Diagrams that cannot be scheduled raise instead of looping or running anything partially wired:
-    * an input port with two incoming wires, a module with outputs but no handler, or an input port with
-      neither a wire nor an external value: `execute` raises before any handler is invoked (a WiringError when
-      every wire joins existing ports);
+    * an input port with two incoming wires, an input port with an incoming wire that is also given an external
+      value (two sources), a module with outputs but no handler, or an input port with neither a wire nor an
+      external value: `execute` raises before any handler is invoked (a WiringError when every wire joins
+      existing ports);
     * a cycle in the wire graph (self-loops included): `execute` raises;
     and by `c16_only_wiring_errors` the loop always terminates, by `c16_no_partially_wired_module_runs` nothing
-    partially wired ever ran. -/
+    partially wired ever ran, by `c16_every_call_after_its_feeders` nothing ran before a module feeding it. -/
 theorem c16_unschedulable_raises_no_loop (d : Diagram) (hwf : d.WF) (H : Nat → Option Handler)
     (ext : List (Nat × List (Nat × Val))) (enforce : Bool) :
     (((∃ m p, 2 ≤ (d.incoming m p).length) ∨
+      (∃ w ∈ d.wires, ∃ ins, (w.dstM, ins) ∈ ext ∧ w.dstP ∈ keys ins) ∨
       (∃ m ∈ d.modules, m.outputs ≠ [] ∧ H m.name = none) ∨
       (∃ m ∈ d.modules, ∃ pp ∈ m.inputs, d.incoming m.name pp.1 = [] ∧
         ∀ ins, (m.name, ins) ∈ ext → pp.1 ∉ keys ins)) →
@@ -208,8 +210,8 @@ theorem c16_unschedulable_raises_no_loop (d : Diagram) (hwf : d.WF) (H : Nat →
   · intro hcase
     have key : ∀ mi, extPhase d ext (fun _ => []) = .ok mi → preflight d H mi ≠ none := by
       intro mi hext hpre
-      obtain ⟨-, h2, h3⟩ := preflight_none hpre
-      rcases hcase with ⟨m, p, hlen⟩ | ⟨m, hm, hne, hH⟩ | ⟨m, hm, pp, hpp, hinc, hext'⟩
+      obtain ⟨-, h2, h3, h4⟩ := preflight_none hpre
+      rcases hcase with ⟨m, p, hlen⟩ | ⟨w, hw, ins, hmem, hk⟩ | ⟨m, hm, hne, hH⟩ | ⟨m, hm, pp, hpp, hinc, hext'⟩
       · cases hl : d.incoming m p with
         | nil => simp [hl] at hlen
         | cons w ws =>
@@ -218,6 +220,8 @@ theorem c16_unschedulable_raises_no_loop (d : Diagram) (hwf : d.WF) (H : Nat →
           have := h2 w hw.1
           rw [hw.2.1, hw.2.2] at this
           omega
+      · have := (extPhase_has hext).2 w.dstM ins hmem w.dstP hk
+        rw [h4 w hw] at this; cases this
       · have := (preflightModule_none (h3 m hm)).1 hne
         simp [hH] at this
       · rcases (preflightModule_none (h3 m hm)).2 pp hpp with h | h
@@ -236,6 +240,19 @@ theorem c16_unschedulable_raises_no_loop (d : Diagram) (hwf : d.WF) (H : Nat →
     | ok recs =>
       have := reaches_idx (fun w hw => ((execute_ok_facts hwf h).2 w hw).2.2) ha
       omega
+
+/-- In every run — successful or raising — of a diagram whose wires join existing ports (so of every accepted
+    diagram), for all handlers, external inputs and both enforcement settings: whenever a handler is invoked, the
+    handler of the source module of every wire into its module has been invoked before, and the value the
+    invoked handler sees on the wire's destination port is what that earlier invocation returned for the wire's
+    source port (coerced to the declared label).  No module runs before a module feeding it, also not in a run
+    that fails later.  (`FedBy d H w s c`: `s` is an invocation of `w`'s source module whose handler returned, for
+    `w.srcP`, the value `c` saw on `w.dstP`.) -/
+theorem c16_every_call_after_its_feeders (d : Diagram) (hwf : d.WF) (hex : d.WiresExist)
+    (H : Nat → Option Handler) (ext : List (Nat × List (Nat × Val))) (enforce : Bool) :
+    ∀ pre c post, (execute d H ext enforce).calls = pre ++ c :: post →
+      ∀ w ∈ d.wires, w.dstM = c.name → ∃ s ∈ pre, FedBy d H w s c :=
+  execute_callsAfter hwf hex
 
 /-- Liveness, the converse of `c16_unschedulable_raises_no_loop`: if the external inputs are valid, the
     pre-flight checks pass (unique wire per port, a handler for every module with outputs, a source for every
@@ -395,6 +412,22 @@ example : ∃ m ∈ exD.modules, ∃ pp ∈ m.inputs, exD.incoming m.name pp.1 =
     ∀ ins, (m.name, ins) ∈ ([] : List (Nat × List (Nat × Val))) → pp.1 ∉ keys ins :=
   ⟨⟨2, [(0, ⟨1, 0⟩), (1, ⟨0, 0⟩)], [], [3]⟩, by decide, (1, ⟨0, 0⟩), by decide, by decide, by simp⟩
 
+example : ∃ w ∈ exD.wires, ∃ ins, (w.dstM, ins) ∈ [(1, [(0, Val.raw 3)])] ∧ w.dstP ∈ keys ins :=
+  ⟨⟨0, 0, 1, 0⟩, by decide, [(0, .raw 3)], by decide, by decide⟩
+
+/-- the repaired defect (`C16-external-and-wire-runs-early`): module 1's port 0 is wired from module 0 and also given
+    an external value.  Module 1 is declared before module 0; before the repair it ran on the external value,
+    then module 0 ran, then the delivery raised.  Now nothing runs. -/
+example : view (execute exD exH [(1, [(0, .raw 3)]), (2, [(1, .raw 8)])] true) =
+    (some .multipleSources, [], [], []) := by decide
+
+/-- `c16_every_call_after_its_feeders` on the successful example run: the invocation of module 1 comes after
+    the one of module 0 and saw its output -/
+example : (execute exD exH exExt true).calls = [⟨0, []⟩] ++ ⟨1, [(0, ⟨0, 2, 5⟩)]⟩ :: [] ∧
+    FedBy exD exH ⟨0, 0, 1, 0⟩ ⟨0, []⟩ ⟨1, [(0, ⟨0, 2, 5⟩)]⟩ :=
+  ⟨by decide, rfl, ⟨0, [], [(0, ⟨0, 2⟩)], [0]⟩, fun _ => .ret [(0, .raw 5)], [(0, .raw 5)], [(0, ⟨0, 2, 5⟩)],
+    ⟨0, 2, 5⟩, by decide, rfl, rfl, rfl, by decide, by decide⟩
+
 private def exCyc : Diagram :=
   Diagram.build [.addModule ⟨0, [(0, ⟨0, 0⟩)], [(0, ⟨0, 0⟩)], []⟩, .addModule ⟨1, [(0, ⟨0, 0⟩)], [(0, ⟨0, 0⟩)], []⟩,
     .connect 0 0 1 0, .connect 1 0 0 0]
@@ -435,7 +468,7 @@ example : ∃ mi, extPhase exD exExt (fun _ => []) = .ok mi ∧ Schedulable exD 
       subst hH
       exact ⟨_, _, rfl, rfl, rfl⟩
   refine ⟨_, rfl, (c16_built_diagrams_accepted exOps).1, (c16_built_diagrams_accepted exOps).2, exHonest,
-    by decide, by decide, ?_⟩
+    by decide, ?_⟩
   intro a ha
   have := reaches_idx (order := [0, 1, 2]) (d := exD) (by decide) ha
   omega
